@@ -1,210 +1,113 @@
 /-
-Model of the metric block layout written by `tsdb/tblstore/metricsdata/flusher.go` and read back by
-`reader.go` / `metric_data_loader.go` (core Lean only), at the level of POSITIONS:
+Model of one metric block of a metric-data table file (core Lean only).
 
-  metric block  = series bucket (one per roaring high key of the series ids) ... | field metas | ...
-  series bucket = series entry ... | low-key offsets | 4-byte position of the offsets   (the bucket footer)
-  series entry  = field data ... | field offsets | reversed uvarint length of the offsets   (several fields)
-                = field data                                                              (one field)
+Go anchors: tsdb/tblstore/metricsdata/flusher.go (what a block stores), reader.go
+(`NewReader`/`initReader`, `dataScanner.scan`), field_reader.go (`GetFieldData`),
+series/field/type.go (`Type`, `AggType`, `AggType.Aggregate`).
 
-The writer is the imperative `flusher` branch for branch: `size` is `kvWriter.Size()`, `l3` / `l4` are
-`Level3.startAt` / `Level4.startAt` (the bases the low-key offsets resp. the field offsets are taken
-against). Bytes are not modelled: a write advances `size` by a length, and what a decoder would find at
-an absolute position is kept in tables (`lowAt`, `posAt`, `fldAt`, `lenAt`); `truth` records where
-`kvWriter.Write(data)` put every field block. The reader computes the span of a field block from the
-offsets exactly as `metricReader.Load`, `metricLoader.Load` and `readSeriesData` do; a decoder applied
-at a position where nothing was encoded answers `none` (in reality: garbage or an error).
+A block is the *decoded* content: field metas in stored order, the slot range of the footer,
+and per series (ascending ids in a real block) one data entry per field. The byte layout
+(offsets, bitmaps, TSD/XOR streams) is the subject of C14/C15; this model starts where the
+reader has produced `(series, field, slot) ↦ value`.
 
-External codecs (FixedOffsetEncoder, uvarint): only their encoded LENGTHS matter here (`Enc`).
-The code variant (`Cfg.rebaseAfterFooter`): does the high-key branch of `FlushSeries` set
-`Level4.startAt` again after the previous bucket's footer was written (regenerated fact).
+Values are abstract (`V`), combined by `agg : FieldType → V → V → V`; the executable driver and
+the arithmetic lemmas instantiate `V := Int` (exact arithmetic, DESIGN section 6).
 -/
+import LinVerif.Util.Map
+
 namespace LinVerif.MetricBlock
+open LinVerif.Map
 
-structure Cfg where
-  rebaseAfterFooter : Bool
-deriving DecidableEq, Repr
+/-! Series ids, field ids and slots are natural numbers (`Nat` is written directly, so that `omega`
+sees plain arithmetic): in the signatures below `s` is a series id, `f` a field id, `t` a slot. -/
 
-/-- encoded lengths of the external codecs. -/
-structure Enc where
-  offLen : List Nat → Nat      -- FixedOffsetEncoder.Write of these offsets
-  uvarLen : Nat → Nat          -- stream.PutUvariantLittleEndian of a block length
+/-- `field.Type` without `Unknown` (codes 1..6). -/
+inductive FieldType
+  | sum | min | max | last | histogram | first
+  deriving DecidableEq, Repr, Inhabited
 
-/-- a simple concrete codec for the driver / the witnesses: 1 header byte + 1 byte per offset (+ width). -/
-def Enc.simple : Enc := ⟨fun xs => 1 + xs.length, fun _ => 1⟩
+/-- numeric value of the Go constant (`SumField = 1 … FirstField = 6`) -/
+def FieldType.code : FieldType → Nat
+  | .sum => 1 | .min => 2 | .max => 3 | .last => 4 | .histogram => 5 | .first => 6
 
-def upd {α : Type} (f : Nat → Option α) (k : Nat) (v : α) : Nat → Option α :=
-  fun x => if x = k then some v else f x
+def FieldType.ofCode? : Nat → Option FieldType
+  | 1 => some .sum | 2 => some .min | 3 => some .max | 4 => some .last
+  | 5 => some .histogram | 6 => some .first | _ => none
 
-def upd2 {α : Type} (f : Nat → Nat → Option α) (a b : Nat) (v : α) : Nat → Nat → Option α :=
-  fun x y => if x = a ∧ y = b then some v else f x y
+def FieldType.all : List FieldType := [.sum, .min, .max, .last, .histogram, .first]
 
-/-- the flusher's state (Level2 / Level3 / Level4 contexts) + the decoder-view tables. -/
-structure W where
-  size : Nat := 0                 -- kvWriter.Size()
-  l4 : Nat := 0                   -- Level4.startAt
-  l3 : Nat := 0                   -- Level3.startAt
-  highKey : Nat := 0              -- Level3.highKey
-  highSet : Bool := false         -- Level3.isHighKeySetEver
-  lowOffs : List Nat := []        -- Level3.lowKeyOffsets
-  highOffs : List Nat := []       -- Level2.highKeyOffsets
-  fOffs : List Nat := []          -- Level4.fieldDataOffsets
-  ids : List Nat := []            -- Level2.seriesIDs (in arrival order = ascending)
-  lowAt : Nat → Option (List Nat) := fun _ => none         -- low-key offsets encoded AT this position
-  posAt : Nat → Option Nat := fun _ => none                -- 4-byte position word ENDING at this position
-  fldAt : Nat → Option (List Nat) := fun _ => none         -- field offsets encoded AT this position
-  lenAt : Nat → Option (Nat × Nat) := fun _ => none        -- reversed uvarint ENDING here: (value, own length)
-  truth : Nat → Nat → Option (Nat × Nat) := fun _ _ => none -- series id, field index ↦ (start, length) written
+/-- `field.AggType` as far as `Type.AggType()` produces it (`Count` is never produced). -/
+inductive AggKind
+  | sum | min | max | last | first
+  deriving DecidableEq, Repr
 
-/-- `PrepareMetric`: `highKeyOffsets.Add(0)`. -/
-def prepare : W := { highOffs := [0] }
+/-- numeric value of the Go constant (`Sum = 1, Count = 2, Min = 3, Max = 4, Last = 5, First = 6`) -/
+def AggKind.code : AggKind → Nat
+  | .sum => 1 | .min => 3 | .max => 4 | .last => 5 | .first => 6
 
-/-- the loop of `flushField`: `fieldDataAt := Size() - Level4.startAt; Write(data); if multi { offsets.Add }`. -/
-def writeFields (sid : Nat) (multi : Bool) : W → Nat → List Nat → W
-  | w, _, [] => w
-  | w, k, len :: rest =>
-    let fieldDataAt := w.size - w.l4
-    writeFields sid multi
-      { w with size := w.size + len, truth := upd2 w.truth sid k (w.size, len),
-               fOffs := if multi then w.fOffs ++ [fieldDataAt] else w.fOffs } (k + 1) rest
+/-- `func (t Type) AggType() AggType` -/
+def FieldType.aggKind : FieldType → AggKind
+  | .sum => .sum | .histogram => .sum | .min => .min | .max => .max
+  | .last => .last | .first => .first
 
-/-- `writeLevel4OffsetsFooter`. -/
-def writeL4Footer (e : Enc) (w : W) : W :=
-  let bl := e.offLen w.fOffs
-  let ul := e.uvarLen bl
-  { w with size := w.size + bl + ul, fldAt := upd w.fldAt w.size w.fOffs,
-           lenAt := upd w.lenAt (w.size + bl + ul) (bl, ul) }
+/-- `func (t AggType) Aggregate(a, b float64) float64` on exact integers: `a` is the value
+already accumulated, `b` the newly arriving one. `Last` keeps the arriving value, `First` the
+accumulated one. -/
+def AggKind.aggregate : AggKind → Int → Int → Int
+  | .sum, a, b => a + b
+  | .min, a, b => Min.min a b
+  | .max, a, b => Max.max a b
+  | .last, _, b => b
+  | .first, a, _ => a
 
-/-- `flushLevel2SeriesBucket`: nothing when the bucket is empty, else low-key offsets + position. -/
-def flushBucket (e : Enc) (w : W) : W :=
-  let pos := w.size - w.l3
-  if pos = 0 then w else
-  let bl := e.offLen w.lowOffs
-  { w with size := w.size + bl + 4, lowAt := upd w.lowAt w.size w.lowOffs,
-           posAt := upd w.posAt (w.size + bl + 4) pos }
+/-- `fieldType.AggType().Aggregate(a, b)` as used by `DownSamplingMultiSeriesInto`. -/
+def aggInt (ty : FieldType) (a b : Int) : Int := ty.aggKind.aggregate a b
 
-/-- the high-key branch of `FlushSeries` (a series id with another roaring high key arrives). -/
-def newBucket (c : Cfg) (e : Enc) (w : W) (hk : Nat) : W :=
-  let w := flushBucket e w
-  { w with highKey := hk, lowOffs := [], l3 := w.size, highOffs := w.highOffs ++ [w.size],
-           l4 := if c.rebaseAfterFooter then w.size else w.l4 }
+/-- field types whose aggregate does not depend on the order of the inputs -/
+def FieldType.orderFree : FieldType → Bool
+  | .last => false | .first => false | _ => true
 
-/-- the part of `FlushSeries` after the high-key branch: low-key offset, `flushField`, series id. -/
-def writeEntry (e : Enc) (nf : Nat) (w : W) (sid : Nat) (flds : List Nat) : W :=
-  let w := { w with lowOffs := w.lowOffs ++ [w.size - w.l3] }
-  let w := writeFields sid (decide (1 < nf)) w 0 flds
-  let w := if 1 < nf then writeL4Footer e w else w
-  { w with ids := w.ids ++ [sid] }
+structure Block (V : Type) where
+  /-- field metas `(id, type)` in stored order -/
+  fields : List (Nat × FieldType)
+  /-- slot range of the footer (inclusive) -/
+  start : Nat
+  stop : Nat
+  /-- series id ↦ field id ↦ slot ↦ value. A field id without entry = `FlushField(nil)`. -/
+  series : List (Nat × List (Nat × List (Nat × V)))
 
-/-- the first part of `FlushSeries`: first high key ever / another high key (previous bucket's footer,
-new bucket). -/
-def enterBucket (c : Cfg) (e : Enc) (w : W) (sid : Nat) : W :=
-  let hk := sid / 65536
-  let w := if w.highSet then w else { w with highSet := true, highKey := hk }
-  if hk ≠ w.highKey then newBucket c e w hk else w
+namespace Block
+variable {V : Type}
 
-/-- `FlushSeries(seriesID)` after `flds.length` calls of `FlushField` (`flds` = the data lengths;
-`nf` = number of fields of the metric). The deferred function re-bases Level4 at the end. -/
-def flushSeries (c : Cfg) (e : Enc) (nf : Nat) (w : W) (sid : Nat) (flds : List Nat) : W :=
-  if flds.isEmpty then { w with l4 := w.size, fOffs := [] } else   -- `!seriesHasData`
-  let w := writeEntry e nf (enterBucket c e w sid) sid flds
-  { w with l4 := w.size, fOffs := [] }
+/-- `reader.GetFields()` looked up by id (`field.Metas.GetFromID`, `fieldIndexes()`) -/
+def fieldType? (b : Block V) (f : Nat) : Option FieldType := lookup b.fields f
 
-/-- a flushed metric block: the writer's final state + where the field metas start
-(`seriesBucket = metricBlock[:fieldMetaStartPos]`). -/
-structure Blk where
-  w : W
-  metasAt : Nat
-  nf : Nat
+/-- `reader.GetSeriesIDs()` -/
+def seriesIds (b : Block V) : List Nat := keys b.series
 
-/-- `PrepareMetric`, one `FlushSeries` per series, the first statements of `CommitMetric`. -/
-def flushBlock (c : Cfg) (e : Enc) (nf : Nat) (series : List (Nat × List Nat)) : Blk :=
-  let w := series.foldl (fun w s => flushSeries c e nf w s.1 s.2) prepare
-  let w := flushBucket e w
-  ⟨w, w.size, nf⟩
-
-/-! ### reader -/
-
-/-- `FixedOffsetDecoder.GetBlock(index, dataBlock)` as a relative (start, end) pair;
-`len` = `len(dataBlock)`. -/
-def getBlock (offs : List Nat) (i len : Nat) : Option (Nat × Nat) :=
-  match offs[i]? with
+/-- `dataScanner.scan(highKey, lowSeriesID)` followed by `fieldReader.GetFieldData(fieldID)`:
+the field's data of one series, `none` if the series is not in the block, the field id is not
+one of the block's fields, or the field was flushed without data. -/
+def fieldData (b : Block V) (s : Nat) (f : Nat) : Option (List (Nat × V)) :=
+  match lookup b.series s with
   | none => none
-  | some s =>
-    let e := match offs[i + 1]? with
-      | some e => e
-      | none => len              -- `if !ok { endOffset = len(dataBlock) }`
-    if e < s ∨ len < e then none else some (s, e)
-
-/-- distinct high keys of the series ids, ascending (the bitmap's container keys). -/
-def highKeys : List Nat → List Nat
-  | [] => []
-  | x :: xs => let r := highKeys xs; if r.head? = some (x / 65536) then r else (x / 65536) :: r
-
-/-- `seriesIDs.GetContainerIndex(highKey)` (only the found case is used). -/
-def containerIdx (ids : List Nat) (hk : Nat) : Option Nat :=
-  let ks := highKeys ids
-  if ks.contains hk then some (ks.takeWhile (· ≠ hk)).length else none
-
-/-- rank of the series inside its container (index into the low-key offsets). -/
-def entryIdx (ids : List Nat) (sid : Nat) : Nat :=
-  (ids.filter (fun x => x / 65536 = sid / 65536 ∧ x < sid)).length
-
-/-- `readSeriesData` on the series entry `[es, ee)`: the absolute (start, length) of field `k`. -/
-def readEntry (fldAt : Nat → Option (List Nat)) (lenAt : Nat → Option (Nat × Nat))
-    (nf es ee k : Nat) : Option (Nat × Nat) :=
-  if nf = 1 then (if k = 0 then some (es, ee - es) else none) else
-  match lenAt ee with
-  | none => none
-  | some (bl, ul) =>
-    let elen := ee - es
-    -- `uVariantEncodingLen <= 0 || fieldOffsetsAt <= 0 || fieldOffsetsAt >= len(seriesEntryBlock)`
-    if ul = 0 ∨ elen ≤ bl + ul then none else
-    let fat := elen - bl - ul
-    match fldAt (es + fat) with
+  | some e =>
+    match lookup b.fields f with
     | none => none
-    | some foffs =>
-      match getBlock foffs k fat with
-      | none => none
-      | some (fs, fe) => some (es + fs, fe - fs)
+    | some _ => lookup e f
 
-/-- `metricReader.Load` + `metricLoader.Load` + `readSeriesData` for one series and field. -/
-def readField (b : Blk) (sid k : Nat) : Option (Nat × Nat) :=
-  if !b.w.ids.contains sid then none else
-  match containerIdx b.w.ids (sid / 65536) with
+/-- the value a decoder positioned on the block's slot range yields for slot `t`
+(`TSDDecoder.ResetWithTimeRange(data, start, end)` + `HasValueWithSlot`/`Value`). -/
+def get (b : Block V) (s : Nat) (f : Nat) (t : Nat) : Option V :=
+  match b.fieldData s f with
   | none => none
-  | some i =>
-    match getBlock b.w.highOffs i b.metasAt with
-    | none => none
-    | some (bs, be) =>
-      if be - bs ≤ 4 then none else           -- `len(level3Block) <= 4`
-      match b.w.posAt be with
-      | none => none
-      | some pos =>
-        if be - bs ≤ pos + 4 then none else   -- `lowKeyOffsetsAt+4 >= len(level3Block)`
-        match b.w.lowAt (bs + pos) with
-        | none => none
-        | some lows =>
-          match getBlock lows (entryIdx b.w.ids sid) pos with
-          | none => none
-          | some (es, ee) => readEntry b.w.fldAt b.w.lenAt b.nf (bs + es) (bs + ee) k
+  | some vals => if b.start ≤ t ∧ t ≤ b.stop then lookup vals t else none
 
-/-- what was written: `truth` of the writer. -/
-def written (b : Blk) (sid k : Nat) : Option (Nat × Nat) := b.w.truth sid k
+end Block
 
-/-- every field block of every series is read back where it was written (executable check used by
-the driver and the witnesses; a series whose field data are ALL empty may be skipped — by
-`readSeriesData` (`fieldOffsetsAt <= 0`) or, when its bucket holds nothing else, by `Load`
-(`flushLevel2SeriesBucket` writes no footer for an empty bucket) — which loses nothing). -/
-def seriesOK (b : Blk) (s : Nat × List Nat) : Bool :=
-  (List.range s.2.length).all (fun k =>
-    match readField b s.1 k, written b s.1 k with
-    | some r, some t => r == t
-    | none, some t => t.2 == 0 ∧ s.2.all (· == 0)
-    | _, none => false)
-
-def lostSeries (c : Cfg) (e : Enc) (nf : Nat) (series : List (Nat × List Nat)) : List Nat :=
-  let b := flushBlock c e nf series
-  (series.filter (fun s => !s.2.isEmpty && !seriesOK b s)).map Prod.fst
+/-- `none` for the empty list, otherwise the left fold of `op` (accumulated, arriving). -/
+def foldAgg {V : Type} (op : V → V → V) : List V → Option V
+  | [] => none
+  | v :: vs => some (vs.foldl op v)
 
 end LinVerif.MetricBlock
